@@ -552,7 +552,7 @@ pub fn validate_type_system(doc: &TsDoc) -> Vec<Issue> {
     }
     for d in &doc.defs {
         match d {
-            TsDef::Type(t) if t.ext && !seen.contains_key(&(t.kind, t.name.s.clone())) => out.push(issue("TS-orphan-extension", format!("extension of undefined {} {}", t.kind.keyword(), t.name.s))),
+            TsDef::Type(t) if t.ext && !seen.contains_key(&(t.kind, t.name.s.clone())) && !(t.kind == TKind::Scalar && crate::schema_ix::BUILTIN_SCALARS.contains(&t.name.s.as_str())) => out.push(issue("TS-orphan-extension", format!("extension of undefined {} {}", t.kind.keyword(), t.name.s))),
             TsDef::Schema(s) if s.ext && schema_defs == 0 => out.push(issue("TS-orphan-extension", "extension of undefined schema".into())),
             _ => {}
         }
